@@ -448,7 +448,10 @@ class Tracer:
         self.installed = True
 
     def begin(self, init_labels=None, donor_script=(), pool_factory="virtual", phase_fault=None,
-              orders=None, task_fault=None):
+              orders=None, task_fault=None, real_random=False):
+        # real_random: leave the donor draw to the library's own global generator (C14, C20)
+        from fast_ticc import cluster_maintenance
+        cluster_maintenance.random = self.orig["random"] if real_random else self.sampler
         self.events = []
         self.label_calls = []
         self.admm_calls = []
